@@ -312,6 +312,32 @@ func (server *SugarDB) setExpiry(ctx context.Context, key string, expireAt time.
 	}
 	server.keysWithExpiry.rwMutex.Unlock()
 
+	// Under a volatile eviction policy the candidates for eviction are exactly the keys that have an expiry
+	// time: register the key as soon as it gets one and withdraw it when it is persisted. (The asynchronous
+	// cache update that follows a write may run before the expiry of the new key has been set.)
+	if server.config.MaxMemory != 0 && !server.isInCluster() {
+		switch strings.ToLower(server.config.EvictionPolicy) {
+		case constants.VolatileLFU:
+			cache := server.lfuCache.cache[database]
+			cache.Mutex.Lock()
+			if expireAt == (time.Time{}) {
+				cache.Delete(key)
+			} else if _, err := cache.GetCount(key); err != nil {
+				cache.Update(key)
+			}
+			cache.Mutex.Unlock()
+		case constants.VolatileLRU:
+			cache := server.lruCache.cache[database]
+			cache.Mutex.Lock()
+			if expireAt == (time.Time{}) {
+				cache.Delete(key)
+			} else if _, err := cache.GetTime(key); err != nil {
+				cache.Update(key)
+			}
+			cache.Mutex.Unlock()
+		}
+	}
+
 	// If touch is true, update the keys status in the cache.
 	if touch {
 		verifhook.Point("async.spawn")
